@@ -686,6 +686,9 @@ func corruptSig(r *mon.Rand, q *sigReq) string {
 	switch r.Intn(4) {
 	case 0:
 		q.enc = 1 + r.Intn(encCount-1)
+		if r.Chance(1, 4) {
+			q.enc = encLaxShape
+		}
 		return "ecdsa-enc-" + string(rune('0'+q.enc))
 	case 1:
 		q.signType = q.hashType ^ byte(1+r.Intn(3))
